@@ -4,7 +4,7 @@
 use crate::engine::{Cx, Property, Tier};
 use crate::ensure_p;
 use crate::itsw::*;
-use crate::oracle::{word_u128, word_u64, AHub, AMsg};
+use crate::oracle::{keccak256, word_u128, word_u64, AHub, AMsg};
 use crate::probes::{TokenExec, TokenExecClient};
 use crate::world::*;
 use proptest::prelude::*;
@@ -518,6 +518,15 @@ impl Property for C04 {
                 if days_after > 0 {
                     advance_ledgers(env, 17280 * days_after);
                     cx.label(if days_after > 60 { "more_than_60_days_pass_after_delivery" } else { "days_pass_after_delivery" });
+                }
+                if case.seed % 3 == 0 {
+                    // a third party asks the gateway to consume the same id for itself: it gets `false`, and that must be all
+                    env.mock_all_auths();
+                    let stranger = w.users[1].clone();
+                    let r = w.gw.client.try_validate_message(&stranger, &sstr(env, source_chain), &sstr(env, &mid), &sstr(env, source_address), &BytesN::from_array(env, &keccak256(&payload)));
+                    env.set_auths(&[]);
+                    ensure_p!(!matches!(r, Ok(Ok(true))), "the gateway let a third party consume a message approved for the token service");
+                    cx.label("third_party_validate_message_after_delivery");
                 }
                 let snap1 = snapshot(env);
                 let ev1 = events_len(env);
